@@ -275,3 +275,255 @@ Proof.
       intros k. destruct (lookup_st st k); [reflexivity|].
       unfold in_new_b. rewrite (proj2 (Z.ltb_ge sw (zlen vec)) El). reflexivity.
 Qed.
+
+(* ------------------------------------------------------------------ one call *)
+
+(* G_last + (vlen - D_last): one past the call's highest index *)
+Definition blocks_end (bl : list (Z * Z)) (vlen : Z) : Z :=
+  match bl with
+  | [] => 0
+  | (g, d) :: tl => rows_end g d tl vlen
+  end.
+
+Lemma blocks_end_last bl vlen : bl <> [] ->
+  blocks_end bl vlen = fst (last bl (0, 0)) + (vlen - snd (last bl (0, 0))).
+Proof.
+  destruct bl as [|[g d] tl]; [congruence|]. intros _. cbn [blocks_end].
+  revert g d. induction tl as [|[g' d'] tl IH]; intros g d; [reflexivity|].
+  cbn [rows_end]. rewrite IH. reflexivity.
+Qed.
+
+Definition multi (bl : list (Z * Z)) : bool := match bl with _ :: _ :: _ => true | _ => false end.
+Definition first_nonneg (bl : list (Z * Z)) : Prop := match bl with (g, _) :: _ => 0 <= g | [] => True end.
+
+Lemma all_nonneg_first bl : Forall (fun b => 0 <= fst b) bl -> first_nonneg bl.
+Proof. destruct bl as [|[g d] tl]; [exact (fun _ => I)|]. intros H. inversion H; subst. assumption. Qed.
+
+(* an accepted call: valid arrays; several blocks only in gapped mode (the C library returns -4 otherwise) *)
+Theorem write_blocks_chunked c st bl vec :
+  vcfg c -> c_chunk c = true -> Inv c st ->
+  valid_arrays (w_gi st) (zlen vec) bl = true -> c_cont c && multi bl = false -> first_nonneg bl ->
+  exists st',
+    write_blocks c st bl vec = (0, st') /\ Inv c st' /\
+    w_gi st' = blocks_end bl (zlen vec) /\
+    (ms_incr (map f_ms (all_files st)) -> ms_incr (map f_ms (all_files st'))) /\
+    forall k, lookup_st st' k =
+      match rows_lookup bl vec (k - c_start c) with
+      | Some v => Some v
+      | None => lookup_st st k
+      end.
+Proof.
+  intros Hc Hch HI Hv Hm Hnn.
+  destruct (valid_arrays_wf _ _ _ Hv) as (g0 & tl & -> & Hge & Hvl & Hwf).
+  cbn [first_nonneg] in Hnn. unfold write_blocks. rewrite (inv_nf c st HI).
+  assert (Eg : (g0 <? w_gi st) = false) by (apply Z.ltb_ge; lia). rewrite Eg.
+  assert (Em : c_cont c && negb match tl with [] => true | _ :: _ => false end = false).
+  { destruct tl; [apply andb_false_r|exact Hm]. }
+  rewrite Em.
+  assert (Hg0 : get_global_sample 0 ((g0, 0) :: tl) = g0).
+  { cbn [get_global_sample]. rewrite (ggs_loop_stop (zlen vec) _ 0 tl g0 0 _ Hwf) by lia. lia. }
+  destruct (loop_blocks c g0 tl vec _ Hc Hch Hnn Hwf (S (length vec)) st 0 HI ltac:(lia)
+              ltac:(intros _; rewrite Hg0; exact Hge) ltac:(unfold zlen; lia))
+    as (st' & Hl & HI' & Hgi' & _ & Hso & Hlk).
+  exists st'. split; [exact Hl|]. split; [exact HI'|]. split; [exact (Hgi' Hvl)|]. split; [exact Hso|].
+  intros k. rewrite Hlk. unfold in_new_b. rewrite Hg0.
+  rewrite (proj2 (Z.ltb_lt 0 (zlen vec)) Hvl).
+  destruct (lookup_st st k) as [v|] eqn:El.
+  - pose proof (lookup_st_bound c st k v HI El).
+    rewrite (rows_lookup_below tl g0 0 vec _ (k - c_start c) Hwf) by lia. reflexivity.
+  - destruct (Z.leb_spec g0 (k - c_start c)).
+    + destruct (rows_lookup ((g0, 0) :: tl) vec (k - c_start c)); reflexivity.
+    + rewrite (rows_lookup_below tl g0 0 vec _ (k - c_start c) Hwf) by lia. reflexivity.
+Qed.
+
+(* a call that the C library refuses leaves everything unchanged *)
+Lemma write_blocks_refused c st bl vec :
+  w_failed st = false ->
+  valid_arrays (w_gi st) (zlen vec) bl && negb (c_cont c && multi bl) = false ->
+  snd (write_blocks c st bl vec) = st.
+Proof.
+  intros Hnf H. destruct (valid_arrays (w_gi st) (zlen vec) bl) eqn:Hv.
+  - cbn [andb] in H. apply negb_false_iff in H.
+    destruct (valid_arrays_wf _ _ _ Hv) as (g0 & tl & -> & Hge & Hvl & Hwf).
+    unfold write_blocks. rewrite Hnf.
+    assert (Eg : (g0 <? w_gi st) = false) by (apply Z.ltb_ge; lia). rewrite Eg.
+    apply andb_true_iff in H as [H1 H2]. rewrite H1. destruct tl; [discriminate|]. reflexivity.
+  - destruct (c_malformed_call_changes_nothing c st bl vec Hv) as (rc & [(_ & E)|(_ & E)]); rewrite E; reflexivity.
+Qed.
+
+(* ------------------------------------------------------------------ histories, Spec *)
+
+Definition accepted (c : cfg) (cur : Z) (bl : list (Z * Z)) (vec : list Z) : bool :=
+  valid_arrays cur (zlen vec) bl && negb (c_cont c && multi bl).
+
+(* the Spec of a recording made of block calls: a valid call overrides the map with its own samples
+   (the block description with the data is an index: rows_lookup bl vec) and moves the cursor one past
+   its highest index; any other call changes nothing *)
+Definition spec_step_blocks (c : cfg) (s : spec) (op : list (Z * Z) * list Z) : spec :=
+  let '(bl, vec) := op in
+  if accepted c (s_cur s) bl vec then
+    mkSpec (blocks_end bl (zlen vec))
+           (fun k => match rows_lookup bl vec (k - c_start c) with
+                     | Some v => Some v
+                     | None => s_map s k
+                     end)
+  else s.
+
+(* in gapped mode the only rejection rule is the validity of the arrays *)
+Lemma spec_step_blocks_gapped c s bl vec : c_cont c = false ->
+  spec_step_blocks c s (bl, vec) =
+  if valid_arrays (s_cur s) (zlen vec) bl then
+    mkSpec (blocks_end bl (zlen vec))
+           (fun k => match rows_lookup bl vec (k - c_start c) with Some v => Some v | None => s_map s k end)
+  else s.
+Proof. intros Hg. unfold spec_step_blocks, accepted. rewrite Hg. cbn [andb negb]. rewrite andb_true_r. reflexivity. Qed.
+
+Definition model_step_blocks (c : cfg) (st : wstate) (op : list (Z * Z) * list Z) : wstate :=
+  snd (write_blocks c st (fst op) (snd op)).
+
+Lemma refines_step_blocks c st s op : vcfg c -> c_chunk c = true -> first_nonneg (fst op) ->
+  refines c st s -> refines c (model_step_blocks c st op) (spec_step_blocks c s op).
+Proof.
+  intros Hc Hch Hnn (HI & Hgi & Hlk & Hso). destruct op as [bl vec]. cbn [fst snd] in *.
+  unfold model_step_blocks, spec_step_blocks. cbn [fst snd].
+  destruct (accepted c (s_cur s) bl vec) eqn:Ea.
+  - unfold accepted in Ea. apply andb_true_iff in Ea as [Ev Em]. apply negb_true_iff in Em.
+    rewrite <- Hgi in Ev.
+    destruct (write_blocks_chunked c st bl vec Hc Hch HI Ev Em Hnn) as (st' & Hw & HI' & Hgi' & Hso' & Hlk').
+    rewrite Hw. cbn [snd]. split; [exact HI'|]. split; [exact Hgi'|]. split; [|exact (Hso' Hso)].
+    intros k. cbn [s_map]. rewrite Hlk', Hlk. reflexivity.
+  - unfold accepted in Ea. rewrite <- Hgi in Ea.
+    rewrite (write_blocks_refused c st bl vec (inv_nf c st HI) Ea).
+    split; [exact HI|]. split; [exact Hgi|]. split; [exact Hlk|exact Hso].
+Qed.
+
+Theorem writer_refines_blocks_chunked c ops : vcfg c -> c_chunk c = true ->
+  Forall (fun op => first_nonneg (fst op)) ops ->
+  refines c (fold_left (model_step_blocks c) ops init_state) (fold_left (spec_step_blocks c) ops spec_init).
+Proof.
+  intros Hc Hch Hops.
+  assert (G : forall st s, refines c st s ->
+            refines c (fold_left (model_step_blocks c) ops st) (fold_left (spec_step_blocks c) ops s)).
+  { induction Hops as [|op ops Hop _ IH]; intros st s HR; cbn [fold_left]; [exact HR|].
+    apply IH. apply refines_step_blocks; assumption. }
+  apply G. split; [apply Inv_init|]. split; [reflexivity|]. split; [reflexivity|exact I].
+Qed.
+
+(* the same with the hypothesis "every global index of every call is >= 0" *)
+Corollary writer_refines_blocks_chunked_all c ops : vcfg c -> c_chunk c = true ->
+  Forall (fun op => Forall (fun b => 0 <= fst b) (fst op)) ops ->
+  refines c (fold_left (model_step_blocks c) ops init_state) (fold_left (spec_step_blocks c) ops spec_init).
+Proof.
+  intros Hc Hch Hops. apply writer_refines_blocks_chunked; try assumption.
+  eapply Forall_impl; [|exact Hops]. intros op. apply all_nonneg_first.
+Qed.
+
+(* return code: 0 exactly for the accepted calls (of a non-empty vector) *)
+Lemma write_blocks_rc_chunked c st bl vec : vcfg c -> c_chunk c = true -> Inv c st -> first_nonneg bl ->
+  vec <> [] ->
+  (fst (write_blocks c st bl vec) = 0 <-> accepted c (w_gi st) bl vec = true).
+Proof.
+  intros Hc Hch HI Hnn Hne. split.
+  - intros Hrc. destruct (accepted c (w_gi st) bl vec) eqn:Ea; [reflexivity|exfalso].
+    unfold accepted in Ea. destruct (valid_arrays (w_gi st) (zlen vec) bl) eqn:Hv.
+    + cbn [andb] in Ea. apply negb_false_iff in Ea.
+      destruct (valid_arrays_wf _ _ _ Hv) as (g0 & tl & -> & Hge & Hvl & Hwf).
+      revert Hrc. unfold write_blocks. rewrite (inv_nf c st HI).
+      assert (Eg : (g0 <? w_gi st) = false) by (apply Z.ltb_ge; lia). rewrite Eg.
+      apply andb_true_iff in Ea as [H1 H2]. rewrite H1. destruct tl; [discriminate|]. cbn. discriminate.
+    + destruct (c_malformed_call_changes_nothing c st bl vec Hv) as (rc & [(Hrc0 & E)|(Hv0 & E)]).
+      * rewrite E in Hrc. cbn in Hrc. congruence.
+      * congruence.
+  - intros Ea. unfold accepted in Ea. apply andb_true_iff in Ea as [Ev Em]. apply negb_true_iff in Em.
+    destruct (write_blocks_chunked c st bl vec Hc Hch HI Ev Em Hnn) as (st' & Hw & _). rewrite Hw. reflexivity.
+Qed.
+
+(* ------------------------------------------------------------------ corollaries *)
+
+(* C06 for every file of every history of block calls *)
+Theorem reachable_files_C06_blocks c ops : vcfg c -> c_chunk c = true ->
+  Forall (fun op => first_nonneg (fst op)) ops ->
+  Forall (C06_file c) (all_files (fold_left (model_step_blocks c) ops init_state)).
+Proof.
+  intros Hc Hch Hops. destruct (writer_refines_blocks_chunked c ops Hc Hch Hops) as ([_ Hf Ho] & _).
+  unfold all_files. apply Forall_app. split.
+  - eapply Forall_impl; [|exact Hf]. intros a (H & _). eapply FWF_C06; exact H.
+  - destruct (w_openf _) as [a|]; [|constructor]. constructor; [|constructor].
+    destruct Ho as (_ & H & _). eapply FWF_C06; exact H.
+Qed.
+
+(* rejected calls (invalid arrays) leave the state unchanged -- in the model and in the Spec *)
+Theorem rejected_blocks_change_nothing c st s bl vec :
+  refines c st s -> valid_arrays (w_gi st) (zlen vec) bl = false ->
+  model_step_blocks c st (bl, vec) = st /\ spec_step_blocks c s (bl, vec) = s.
+Proof.
+  intros (HI & Hgi & _) Hv. split.
+  - unfold model_step_blocks. cbn [fst snd].
+    destruct (c_malformed_call_changes_nothing c st bl vec Hv) as (rc & [(_ & E)|(_ & E)]); rewrite E; reflexivity.
+  - unfold spec_step_blocks, accepted. rewrite <- Hgi, Hv. reflexivity.
+Qed.
+
+(* the cursor is one past the highest index, for histories of block calls *)
+Theorem cursor_one_past_highest_blocks c ops : vcfg c -> c_chunk c = true ->
+  Forall (fun op => first_nonneg (fst op)) ops ->
+  let st := fold_left (model_step_blocks c) ops init_state in
+  forall k v, lookup_st st k = Some v -> k < c_start c + w_gi st.
+Proof.
+  intros Hc Hch Hops st k v H. destruct (writer_refines_blocks_chunked c ops Hc Hch Hops) as (HI & _).
+  eapply lookup_st_bound; eassumption.
+Qed.
+
+(* single-block calls are the instance bl = [(g, 0)] *)
+Lemma spec_step_blocks_single c s g vec : vec <> [] ->
+  (forall k, s_map (spec_step_blocks c s ([(g, 0)], vec)) k = s_map (spec_step c s (g, vec)) k) /\
+  s_cur (spec_step_blocks c s ([(g, 0)], vec)) = s_cur (spec_step c s (g, vec)).
+Proof.
+  intros Hne.
+  assert (Hl : 0 < zlen vec) by (destruct vec; [congruence|unfold zlen; cbn [length]; lia]).
+  unfold spec_step_blocks, spec_step, accepted, valid_arrays. cbn [multi bad_blocks Z.eqb andb orb negb].
+  rewrite andb_false_r. cbn [negb]. rewrite andb_true_r, orb_false_r, Z.geb_leb.
+  destruct (Z.leb_spec (zlen vec) 0); [lia|]. cbn [negb]. rewrite andb_true_r.
+  destruct (g <? s_cur s); cbn [negb]; [split; reflexivity|]. cbn [s_map s_cur blocks_end rows_end]. split.
+  - intros k. rewrite rl_one, Z.add_0_l.
+    replace ((g <=? k - c_start c) && (k - c_start c <? g + (zlen vec - 0)))
+      with ((c_start c + g <=? k) && (k <? c_start c + g + zlen vec)).
+    + destruct ((c_start c + g <=? k) && (k <? c_start c + g + zlen vec)) eqn:E; [|reflexivity].
+      apply andb_true_iff in E as [E1 E2]. apply Z.leb_le in E1. apply Z.ltb_lt in E2.
+      destruct (nth_error vec (Z.to_nat (k - c_start c - g))) eqn:En; [reflexivity|].
+      exfalso. revert En. apply nth_in_range. lia.
+    + destruct (Z.leb_spec (c_start c + g) k), (Z.leb_spec g (k - c_start c)),
+        (Z.ltb_spec k (c_start c + g + zlen vec)), (Z.ltb_spec (k - c_start c) (g + (zlen vec - 0)));
+        try reflexivity; lia.
+  - destruct (Z.eqb_spec (zlen vec) 0); lia.
+Qed.
+
+(* ------------------------------------------------------------------ non-vacuity *)
+
+(* 100 Hz, 100 ms files = 10 samples per file.  The first call has three blocks and spans three files
+   (one block straddles a file boundary, one starts exactly on one); the second call has invalid arrays
+   (data index not increasing) and the third starts before the cursor: both change nothing; the fourth
+   continues in the still-open file. *)
+Example refinement_blocks_example :
+  let c := mkCfg 150000000000 100 1 1 100 false true in
+  let ops := [ ([(3, 0); (8, 3); (20, 7)], [1; 2; 3; 4; 5; 6; 7; 8; 9]);
+               ([(30, 0); (40, 2); (50, 2)], [60; 61; 62; 63]);
+               ([(21, 0)], [70; 71]);
+               ([(23, 0); (27, 1)], [80; 81; 82]) ] in
+  let st := fold_left (model_step_blocks c) ops init_state in
+  let s := fold_left (spec_step_blocks c) ops spec_init in
+  vcfg c /\ Forall (fun op => Forall (fun b => 0 <= fst b) (fst op)) ops /\
+  w_gi st = 29 /\ s_cur s = 29 /\ length (all_files st) = 3%nat /\
+  map (fun a => length (f_index a)) (all_files st) = [2; 1; 3]%nat /\
+  lookup_st st 150000000005 = Some 3 /\ lookup_st st 150000000006 = None /\
+  lookup_st st 150000000009 = Some 5 /\ lookup_st st 150000000011 = Some 7 /\
+  lookup_st st 150000000021 = Some 9 /\ lookup_st st 150000000022 = None /\
+  lookup_st st 150000000023 = Some 80 /\ lookup_st st 150000000028 = Some 82 /\
+  s_map s 150000000011 = Some 7 /\ s_map s 150000000028 = Some 82 /\ s_map s 150000000030 = None.
+Proof.
+  vm_compute. repeat split; try reflexivity; try (intro; discriminate).
+  repeat constructor; intro; discriminate.
+Qed.
+
+(* single-block calls (WriterInv.model_step) are block calls *)
+Lemma model_step_blocks_single c st g vec : model_step c st (g, vec) = model_step_blocks c st ([(g, 0)], vec).
+Proof. reflexivity. Qed.
